@@ -1,13 +1,18 @@
 SPECIFICATION Spec
 CONSTANTS MaxN = 3
-  LenProfiles <- LensThorough
+  DataProfiles <- DataThorough
   Forms <- FormsThorough
-  StopKinds = {"close", "abandon"}
+  StopKinds = {"close", "abandon", "keep"}
   Scenarios <- ScenAll
   Reruns = {FALSE, TRUE}
   RerunScenarios <- ScenRerunThorough
-  RerunLens <- LensRerunThorough
+  RerunData <- DataRerunThorough
   RerunForms <- FormsAll
+  Holds = {TRUE}
+  HoldScenarios <- ScenHoldThorough
+  HoldData <- DataHoldThorough
+  HoldForms <- FormsHoldThorough
+  HoldRc = {FALSE, TRUE}
   KeepHistory = TRUE
   Design = "rename"
 VIEW view
